@@ -31,6 +31,19 @@ ASSUMPTIONS = [
     "last value held k-1 samples)] +- 1e-9 of scale: the statement fixes only 'no coarser than'",
     "input energy >= 0 is asserted strictly; open known finding C03-KF1 (rectangle-rule sum is not sign-definite) routes cases whose "
     "energy equals the defining sum but is negative",
+    "mid-range clauses: sizes are one per logarithmic bin, placed by a hash of VERIF_SEED, plus sizes aimed at integer literals of the "
+    "source under test (generator only); dt in {0.01, 0.005, 2^-7, 0.02, 0.0025}, xi in {0, 0.02, 0.05, 0.1, 0.2}, T/dt in [0.45, 290] ascending "
+    "(log-spaced), float64 ndarray records of one family (noise on a non-zero mean + three resonant bursts + optional spike): the record "
+    "kinds, dt and xi ranges of the quantifier are the business of the Hypothesis clauses at small sizes",
+    "mid-range clauses: the exact long-double reference is evaluated on all oscillators when oscillators x samples <= 1.2e6 (thorough 4e6), "
+    "otherwise on a sample (first / last rows, rows -1, 0, 1 modulo 2^5..2^12, hash-chosen rows); the other rows are covered by the exact "
+    "differential relations between entry points, the third-series identity, the pseudo relations and S_d >= raw S_d",
+    "mid-range clauses, quick tier: record length <= 130 000 (array functions), 80 000 (energy), 40 000 (intensities), 30 000 x sub-steps "
+    "(object); products <= 1e7 (array), 8e6 (energy), 1.2e7 (object, samples x periods x sub-steps): the library's time loop is a Python loop "
+    "(~12 us per sample, ~0.11 us per cell), a single call beyond that exceeds the per-case budget; the thorough tier goes to 1e6 / 6e5 / 3e5 / "
+    "3e5 samples and 4e7 / 3e7 / 4e7 cells",
+    "mid-range-object histories: a lazy read follows only explicit requests made with xi = 0.05 (the docstring's 'default or previously set' "
+    "damping is then unambiguous); a lazy read promises the default min_dt_ratio 4 and any finer integer refinement is accepted",
 ]
 EPS = np.finfo(float).eps
 LD = np.longdouble
